@@ -11,13 +11,13 @@ import (
 type KeyRel int
 
 const (
-	RelSS    KeyRel = iota // same bucket, same tag (forces key comparison)
-	RelSD                  // same bucket, different tags
-	RelDD                  // different buckets
-	RelSplit               // same bucket in a 32-bucket table, different buckets after a grow
-	RelLate                // different buckets, the other keys in the last buckets a resize copies
-	RelZeroSD              // same bucket, different tags, key 0 has the all-zero tag (top hash 0 / h2 0)
-	RelZeroDD              // different buckets, every alphabet key has the all-zero tag
+	RelSS     KeyRel = iota // same bucket, same tag (forces key comparison)
+	RelSD                   // same bucket, different tags
+	RelDD                   // different buckets
+	RelSplit                // same bucket in a 32-bucket table, different buckets after a grow
+	RelLate                 // different buckets, the other keys in the last buckets a resize copies
+	RelZeroSD               // same bucket, different tags, key 0 has the all-zero tag (top hash 0 / h2 0)
+	RelZeroDD               // different buckets, every alphabet key has the all-zero tag
 )
 
 var relNames = [...]string{"sameBucketSameTag", "sameBucketDiffTag", "diffBuckets", "splitOnGrow", "lateBuckets", "sameBucketZeroTag", "diffBucketsZeroTag"}
@@ -97,9 +97,9 @@ type MapScen struct {
 	Table     TableCond
 	// Cycled: before the scenario's own prologue the map grows and shrinks back to its minimum length
 	// (the scenario starts from a non-initial state: used table, used counter stripes, a resize history)
-	Cycled  bool
-	Threads [][]MIn
-	NoBlock []bool
+	Cycled    bool
+	Threads   [][]MIn
+	NoBlock   []bool
 	MaxSteps  []int
 	Bound     int // preemption bound (0 = unbounded)
 	Classes   int
